@@ -87,8 +87,8 @@ class C03(Prop):
                     yield {"mode": "single", "exhaustive": True, "seed": f"{seed}/x{i}",
                            "clients": [{"type": t, "steps": [step_of(k) for k in h]}]}
                 i += 1
-        n_rand = {"quick": 1_600, "thorough": 20_000}[tier]
-        n_dual = {"quick": 2_400, "thorough": 40_000}[tier]
+        n_rand = {"quick": 1_600, "thorough": 120_000}[tier]
+        n_dual = {"quick": 2_400, "thorough": 240_000}[tier]
         for j in range(n_rand):
             if i % nshards == shard:
                 yield {"mode": "single", "seed": f"{seed}/r{j}", "random": True}
